@@ -185,6 +185,10 @@ type TCPRigOpts struct {
 	// CloseAfterAccepts > 0: the accept function closes the listener right after it has obtained
 	// its N-th connection, before handing the connection to StreamServe.
 	CloseAfterAccepts int
+	// ViaManager: the listener is obtained from a service.ListenerManager (as the server binary
+	// does) on ManagerAddr instead of being created by the harness.
+	ViaManager  bool
+	ManagerAddr string
 }
 
 type TCPRig struct {
@@ -199,6 +203,7 @@ type TCPRig struct {
 	conns map[string]*TCPConnRec
 	order []*TCPConnRec
 
+	closer        io.Closer
 	active        atomic.Int64
 	lastReturn    atomic.Int64 // unix nano of the last handler return
 	serveReturned atomic.Int64 // unix nano when StreamServe returned
@@ -210,18 +215,46 @@ func StartTCPRig(keys []KeySpec, o TCPRigOpts) *TCPRig {
 		o.Timeout = 2 * time.Second
 	}
 	rig := &TCPRig{Keys: keys, CL: BuildCipherList(keys), opts: o, conns: map[string]*TCPConnRec{}, done: make(chan struct{})}
-	ln, err := net.ListenTCP("tcp", &net.TCPAddr{IP: o.ListenIP})
-	if err != nil {
-		fatalf("rig listen: %v", err)
+	var ln *net.TCPListener
+	var sl service.StreamListener
+	if o.ViaManager {
+		var err error
+		sl, err = service.NewListenerManager().ListenStream(o.ManagerAddr)
+		if err != nil {
+			fatalf("rig listen via manager: %v", err)
+		}
+		rig.Port = sl.Addr().(*net.TCPAddr).Port
+		rig.closer = sl
+	} else {
+		var err error
+		ln, err = net.ListenTCP("tcp", &net.TCPAddr{IP: o.ListenIP})
+		if err != nil {
+			fatalf("rig listen: %v", err)
+		}
+		rig.Ln = ln
+		rig.Port = ln.Addr().(*net.TCPAddr).Port
+		rig.closer = ln
 	}
-	rig.Ln = ln
-	rig.Port = ln.Addr().(*net.TCPAddr).Port
 	auth := service.NewShadowsocksStreamAuthenticator(rig.CL, o.Replay, o.SSMetrics, nil)
 	rig.Handler = service.NewStreamHandler(auth, o.Timeout)
 	accept := func() (transport.StreamConn, error) {
-		c, err := ln.AcceptTCP()
-		if err != nil {
-			return nil, err
+		var c *net.TCPConn
+		if sl != nil {
+			sc, err := sl.AcceptStream()
+			if err != nil {
+				return nil, err
+			}
+			tc, ok := sc.(*net.TCPConn)
+			if !ok {
+				fatalf("manager listener returned %T, not *net.TCPConn", sc)
+			}
+			c = tc
+		} else {
+			var err error
+			c, err = ln.AcceptTCP()
+			if err != nil {
+				return nil, err
+			}
 		}
 		rec := &TCPConnRec{Remote: c.RemoteAddr().String(), Accepted: time.Now(), done: make(chan struct{})}
 		rig.mu.Lock()
@@ -230,7 +263,7 @@ func StartTCPRig(keys []KeySpec, o TCPRigOpts) *TCPRig {
 		n := len(rig.order)
 		rig.mu.Unlock()
 		if o.CloseAfterAccepts > 0 && n == o.CloseAfterAccepts {
-			ln.Close()
+			rig.closer.Close()
 		}
 		if o.Raw {
 			return &rawTagged{TCPConn: c, rec: rec}, nil
@@ -309,7 +342,7 @@ func (r *TCPRig) All() []*TCPConnRec {
 
 // Close closes the listener and waits for StreamServe to return.
 func (r *TCPRig) Close(within time.Duration) bool {
-	r.Ln.Close()
+	r.closer.Close()
 	select {
 	case <-r.done:
 		return true
